@@ -1,5 +1,6 @@
 //! wf-stark — engines for the end-to-end STARK properties (C01, C02, C03, C06, C28, C29).
 #![allow(clippy::all)]
+mod attack;
 mod genair;
 mod run;
 mod validate;
@@ -49,6 +50,46 @@ fn digests_engine(args: &[String]) -> i32 {
             Err(p) => json!({"verdict": "setup_panic", "detail": p}),
         });
         r["i"] = json!(i);
+        out.emit(&r);
+        out.flush();
+    }
+    0
+}
+
+fn attack_engine(args: &[String]) -> i32 {
+    use winterfell::{
+        crypto::hashers::{Blake3_256, Rp64_256},
+        math::fields::{f128, f64, CubeExtension, QuadExtension},
+    };
+    let cases = read_ndjson(&args[0]);
+    let mut out = Out::new();
+    for (i, c) in cases.iter().enumerate() {
+        let kind = c["kind"].as_str().unwrap_or("honest").to_string();
+        let case: run::Case = match serde_json::from_value(c.clone()) {
+            Ok(c) => c,
+            Err(e) => {
+                eprintln!("bad case {i}: {e}");
+                return 2;
+            },
+        };
+        type B64 = f64::BaseElement;
+        type B128 = f128::BaseElement;
+        let r = wfcommon::util::catch(|| match (case.field.as_str(), case.hash.as_str(), case.opts.ext) {
+            ("f64", "blake3_256", 1) => attack::attack::<B64, Blake3_256<B64>, B64>(&case, &kind),
+            ("f64", "blake3_256", 2) => attack::attack::<B64, Blake3_256<B64>, QuadExtension<B64>>(&case, &kind),
+            ("f64", "blake3_256", 3) => attack::attack::<B64, Blake3_256<B64>, CubeExtension<B64>>(&case, &kind),
+            ("f64", "rp64_256", 1) => attack::attack::<B64, Rp64_256, B64>(&case, &kind),
+            ("f64", "rp64_256", 2) => attack::attack::<B64, Rp64_256, QuadExtension<B64>>(&case, &kind),
+            ("f128", "blake3_256", 1) => attack::attack::<B128, Blake3_256<B128>, B128>(&case, &kind),
+            ("f128", "blake3_256", 2) => attack::attack::<B128, Blake3_256<B128>, QuadExtension<B128>>(&case, &kind),
+            _ => json!({"honest": "unsupported_combo"}),
+        });
+        let mut r = match r {
+            Ok(v) => v,
+            Err(p) => json!({"honest": "setup_panic", "detail": p}),
+        };
+        r["i"] = json!(i);
+        r["kind"] = json!(kind);
         out.emit(&r);
         out.flush();
     }
@@ -107,6 +148,7 @@ fn main() {
         Some("pipeline") => pipeline(&args[2..]),
         Some("validate") => validate_engine(&args[2..]),
         Some("digests") => digests_engine(&args[2..]),
+        Some("attack") => attack_engine(&args[2..]),
         Some("tables") => tables_engine(&args[2..]),
         _ => {
             eprintln!("usage: wf-stark <pipeline> ...");
